@@ -20,8 +20,9 @@ class AABB:
         Raises:
             Exception: fails if p_min and p_max have different sizes (inconsistent dimension)
         """
-        self._p1 = Vec(p_min)
-        self._p2 = Vec(p_max)
+        # copy the bounds: the box owns its arrays (pad() updates them in place and must not modify the caller's data)
+        self._p1 = Vec(np.array(p_min))
+        self._p2 = Vec(np.array(p_max))
         if self._p1.size != self._p2.size:
             raise Exception("AABB: received two initial arrays of a different dimension!")
     
